@@ -606,6 +606,8 @@ func gen(suite string, seed int64, n int, emit func(string)) {
 		genVb(g, n, emit)
 	case "wire":
 		genWire(g, n, emit)
+	case "fill":
+		genFill(g, n, emit)
 	case "hist":
 		for i := 0; i < n; i++ {
 			k := g.kind()
@@ -921,6 +923,145 @@ func genRead(g *G, n int, emit func(string)) {
 			}
 			f[0] = byte(g.pick(16)<<4) | byte(g.pick(16))
 			emit("R 2 " + hexs(f))
+		}
+	}
+}
+
+// genFill: the positional encoders (fill, fillProp of the wire types; fill of
+// the packets) on buffers that are nil, too short by one, exact, longer, at
+// offsets 0 and beyond - what WriteTo's two passes are made of.
+func genFill(g *G, n int, emit func(string)) {
+	offs := []int{0, 0, 0, 1, 2, 5, 130}
+	// buffer lengths around the point where the value fits at offset i
+	lens := func(i, w int) []int {
+		ls := []int{0, i, i + 1, i + w - 1, i + w, i + w + 1, i + w + 4}
+		if w > 2 {
+			ls = append(ls, i+2, i+w-2, i+g.pick(w))
+		}
+		var out []int
+		for _, l := range ls {
+			if l >= 0 && l <= 140000 {
+				out = append(out, l)
+			}
+		}
+		return out
+	}
+	widthOf := func(k string, v string) int {
+		switch k {
+		case "u8", "bool":
+			return 1
+		case "u16":
+			return 2
+		case "u32":
+			return 4
+		case "bin":
+			return 2 + (len(v)-1)/2
+		case "raw":
+			return (len(v) - 1) / 2
+		}
+		return 4
+	}
+	kinds := []string{"u8", "u16", "u32", "bool", "bin", "raw", "vb"}
+	// every value class of every wire type once, systematically
+	fixed := map[string][]string{
+		"u8":   {"N0", "N1", "N127", "N128", "N255"},
+		"u16":  {"N0", "N1", "N255", "N256", "N65535"},
+		"u32":  {"N0", "N1", "N65536", "N4294967295"},
+		"bool": {"B0", "B1"},
+		"bin":  {"S-", "S00", "S6162", "S" + strings.Repeat("7a", 300)},
+		"raw":  {"S-", "S00", "S6162", "S" + strings.Repeat("7a", 300)},
+		"vb": {"N0", "N1", "N127", "N128", "N16383", "N16384", "N2097151", "N2097152", "N268435455",
+			"N268435456", "N4294967295", "N18446744073709551615"},
+	}
+	one := func(k, v string) {
+		i := offs[g.pick(len(offs))]
+		w := widthOf(k, v)
+		for _, l := range lens(i, w) {
+			emit(fmt.Sprintf("WFILL %s %s %d %d", k, v, l, i))
+			if k != "raw" {
+				emit(fmt.Sprintf("WFILLP %s %s %d %d %d", k, v, 1+g.pick(255), l, i))
+			}
+		}
+	}
+	for _, k := range kinds {
+		for _, v := range fixed[k] {
+			one(k, v)
+		}
+	}
+	for c := 0; c < n; c++ {
+		switch g.pick(10) {
+		case 0, 1, 2: // a wire value
+			k := kinds[g.pick(len(kinds))]
+			var v string
+			switch k {
+			case "u8":
+				v = "N" + strconv.FormatUint(g.u8(), 10)
+			case "u16":
+				v = "N" + strconv.FormatUint(g.u16(), 10)
+			case "u32":
+				v = "N" + strconv.FormatUint(g.u32(), 10)
+			case "bool":
+				v = "B" + g.boolS()
+			case "vb":
+				v = "N" + strconv.FormatUint(g.subID(), 10)
+				if g.chance(20) {
+					v = "N" + strconv.FormatUint(g.r.Uint64(), 10)
+				}
+			default:
+				b := g.bytes()
+				if len(b) > 3000 && !g.chance(10) {
+					b = b[:g.pick(300)]
+				}
+				v = "S" + hexs(b)
+			}
+			one(k, v)
+		case 3: // a user property
+			kk, vv := g.bytes(), g.bytes()
+			if len(kk) > 400 {
+				kk = kk[:g.pick(400)]
+			}
+			if len(vv) > 400 {
+				vv = vv[:g.pick(400)]
+			}
+			if g.chance(15) {
+				kk = nil
+			}
+			i := offs[g.pick(len(offs))]
+			prop := g.pick(2)
+			w := 4 + len(kk) + len(vv) + prop
+			for _, l := range lens(i, w) {
+				emit(fmt.Sprintf("UPFILL %s %s %d %d %d", hexs(kk), hexs(vv), prop, l, i))
+			}
+			// the key fits, the value does not
+			emit(fmt.Sprintf("UPFILL %s %s %d %d %d", hexs(kk), hexs(vv), prop, i+prop+2+len(kk), i))
+			emit(fmt.Sprintf("UPFILL %s %s %d %d %d", hexs(kk), hexs(vv), prop, i+prop+2+len(kk)+1, i))
+		default: // a packet
+			k := g.kind()
+			if g.chance(2) {
+				k = 0
+			}
+			g.big = g.chance(3)
+			g.domain = g.chance(50)
+			var cs []string
+			if g.chance(40) {
+				cs = g.calls(k, 1+g.pick(8))
+			} else {
+				cs = g.subset(k, 20+g.pick(70))
+			}
+			g.domain = false
+			g.big = true
+			size := len(frameOf(build(k, cs)))
+			i := offs[g.pick(len(offs))]
+			ls := []int{0, i + size, i + size, i + size + 3}
+			if size > 0 {
+				ls = append(ls, i+size-1, i+g.pick(size), g.pick(i+size))
+			}
+			for _, l := range ls {
+				if l > 20000 && !g.chance(20) {
+					continue
+				}
+				emit(fmt.Sprintf("PFILL %d %d %d%s", k, l, i, sp(cs)))
+			}
 		}
 	}
 }
